@@ -183,7 +183,7 @@ pub struct Run {
     pub state_keys: Vec<u64>,
 }
 
-/// canonical key of the implementation state: private Display state + transport state
+/// canonical key of the implementation state: private Display state (hook, `&self`) + pin levels
 pub fn tstate_key(rig: &mut Rig) -> u64 {
     let mut h = crate::util::Fnv::new();
     let st = rig.dut.as_ref().unwrap().state();
@@ -192,11 +192,10 @@ pub fn tstate_key(rig: &mut Rig) -> u64 {
     h.u32(st.sleeping as u32);
     h.u32(st.w as u32 | (st.h as u32) << 16);
     h.u32(st.ox as u32 | (st.oy as u32) << 16);
-    match rig.dut.as_mut().unwrap().bus_last() {
-        None => h.u32(0x1_0000),
-        Some(None) => h.u32(0x2_0000),
-        Some(Some(w)) => h.u32(w as u32),
-    }
+    // NOTE: the bus cache is deliberately *not* read here: the only route to the interface of a live
+    // Display is `unsafe dcs()`, a `&mut self` method that a changed driver may give side effects
+    // (a seeded change that invalidated a window cache there was masked by exactly that peek).
+    // Observation of a display under test goes through `&self` accessors and the board only.
     let b = rig.bd.borrow();
     for l in b.levels.iter() {
         h.byte(*l as u8);
